@@ -92,12 +92,14 @@ Definition partition_ok (s : status) (pods : list pod) : bool :=
   forallb (fun tc => counts_eqb (snd tc) (live_of_task (fst tc) pods)) (st_tsc s).
 
 (* which code path handled the request (to name a finding, not to decide it) *)
-Inductive path := PathKill | PathSync | PathSyncPgPending | PathSyncDiverged.
+Inductive path := PathKill | PathSync | PathSyncPgPending | PathSyncDiverged
+              | PathNone.   (* the request only armed a delayed action: nothing was reconciled *)
 (* the cache's job status had drifted from the API server's before the step (other than by the version) *)
 Definition diverged (b : obs) : bool :=
   if status_eq_dec (set_version (o_vst b) (st_version (o_st b))) (o_st b) then false else true.
 Definition path_of (sp : spec) (b : obs) (pgv : bool) (r : req) : path :=
   let vst := o_vst b in
+  if snd (apply_policies_d sp vst r) then PathNone else
   match fst (exec (st_phase vst) (apply_policies sp vst r)) with
   | KSync => if pgv then (if diverged b then PathSyncDiverged else PathSync) else PathSyncPgPending
   | _ => PathKill
